@@ -3,7 +3,7 @@ K = 'github.com/ProjectSerenity/firefly/kernel'
 B = 'github.com/ProjectSerenity/firefly/kbuild'
 
 PROP = {'pkg': 'github.com/ProjectSerenity/firefly/kernel/mm/pmm',
- 'tests': [{'name': 'TestVerifC01', 'checks_quick': 40000, 'checks_thorough': 200000}],
+ 'tests': [{'name': 'TestVerifC01', 'checks_quick': 120000, 'checks_thorough': 3000000}],
  'rule': 'rapid generates a sorted non-overlapping memory map (1-8 regions, aligned or not, word-boundary frame '
          'counts, all region types), a kernel placement with page-aligned start inside one available region, and an '
          'alloc/free/drain/free-all history; pmm.Init runs on the real multiboot block and every frame returned by '
